@@ -193,6 +193,22 @@ def _oracle_doc(src):
                 except IndexError:
                     pass
             bump('indexings', 2 * n + 2)
+            # slices follow contents too (a list of the same nodes / text, parents included)
+            for sl in (slice(None), slice(1, None), slice(None, -1), slice(None, None, -1), slice(0, n, 2), slice(n, None),
+                       slice(-2, None)):
+                try:
+                    got = node[sl]
+                except Exception as ex:      # noqa
+                    fail('indexing', '%s[%r] raises %s' % (where, sl, type(ex).__name__))
+                    continue
+                if not isinstance(got, list):
+                    fail('indexing', '%s[%r] is a %s, not a list' % (where, sl, type(got).__name__))
+                    continue
+                if any(is_expr(g) for g in got):
+                    fail('indexing', '%s[%r] holds bare expressions instead of nodes' % (where, sl))
+                    continue
+                same(got, want[sl], where + ' [%r]' % (sl,), 'indexing', node)
+            bump('slicings', 7)
             # descendants = transitive closure, every node once
             desc = list(node.descendants)
             clo = closure(e, [])
